@@ -354,8 +354,15 @@ macro_rules! position_harness {
 // @functions LeafAccessor::{position,find_key,key_unchecked}, <&[u8] as Key>::compare
 // @bound 3 pairs, key lengths (2,3,3) variable width or fixed width 2; query 0..=3 bytes; all bytes arbitrary
 // @stubs crate::panicking -> false; alloc::fmt::format -> empty
-position_harness!(c04_leaf_position_v, Shape { n: 3, kl: [2, 3, 3, 0], vl: [1, 0, 2, 0], fk: None, fv: None });
 position_harness!(c04_leaf_position_f, Shape { n: 3, kl: [2, 2, 2, 0], vl: [1, 1, 1, 0], fk: Some(2), fv: Some(1) });
+
+// variable-width keys: 620 s, thorough tier
+// @harness props=C04 tier=thorough timeout=1200 mem=8 stubbing=1 replay=native
+// @desc LeafAccessor::position / find_key over a leaf of strictly increasing arbitrary keys and an arbitrary query equal the linear-scan model (first index whose key is >= query, found iff equal)
+// @functions LeafAccessor::{position,find_key,key_unchecked}, <&[u8] as Key>::compare
+// @bound 3 pairs, key lengths (2,3,3) variable width or fixed width 2; query 0..=3 bytes; all bytes arbitrary
+// @stubs crate::panicking -> false; alloc::fmt::format -> empty
+position_harness!(c04_leaf_position_v, Shape { n: 3, kl: [2, 3, 3, 0], vl: [1, 0, 2, 0], fk: None, fv: None });
 
 // ---- leaf_insert / remove / replace against a list model ----------------------------------------
 
@@ -603,13 +610,20 @@ leaf_op_harness!(c04_leaf_replace_fv_at2_len0, { replace_case(FV_, 2, 0); });
 // @bound 64-byte page; shapes VV (variable key/value), FV_ (fixed 2-byte key), VF (fixed 2-byte value) with 3 pairs and key lengths different from value lengths; index sets {0},{1},{0,1},{0,2},{1,2} as named; all bytes arbitrary
 // @stubs crate::panicking -> false; alloc::fmt::format -> empty
 leaf_op_harness!(c04_leaf_remove_indices_vv_0, { remove_indices_case(VV, 0b001); });
+leaf_op_harness!(c04_leaf_remove_indices_vv_02, { remove_indices_case(VV, 0b101); });
+leaf_op_harness!(c04_leaf_remove_indices_fv_0, { remove_indices_case(FV_, 0b001); });
+leaf_op_harness!(c04_leaf_remove_indices_vf_1, { remove_indices_case(VF, 0b010); });
+
+// further index sets run in the thorough tier (the quick command has to fit in 900 s)
+// @harness props=C04,C10 tier=thorough timeout=1500 mem=12 stubbing=1 replay=native
+// @desc LeafMutator::remove_indices (in-place removal of several pairs, used by retain / extract_if) of the named index set from a 3-pair leaf equals the list model - the surviving pairs keep their keys AND values, in order - and the page stays well-formed for the independent decoder (offsets, count, total length)
+// @functions LeafMutator::{new,remove_indices,remove_index_ranges,update_removed_indices,compact_before_hole,compact_tail,update_key_end,update_value_end}, LeafAccessor::*
+// @bound 64-byte page; shapes VV (variable key/value), FV_ (fixed 2-byte key), VF (fixed 2-byte value) with 3 pairs and key lengths different from value lengths; index sets {0},{1},{0,1},{0,2},{1,2} as named; all bytes arbitrary
+// @stubs crate::panicking -> false; alloc::fmt::format -> empty
 leaf_op_harness!(c04_leaf_remove_indices_vv_1, { remove_indices_case(VV, 0b010); });
 leaf_op_harness!(c04_leaf_remove_indices_vv_01, { remove_indices_case(VV, 0b011); });
-leaf_op_harness!(c04_leaf_remove_indices_vv_02, { remove_indices_case(VV, 0b101); });
 leaf_op_harness!(c04_leaf_remove_indices_vv_12, { remove_indices_case(VV, 0b110); });
-leaf_op_harness!(c04_leaf_remove_indices_fv_0, { remove_indices_case(FV_, 0b001); });
 leaf_op_harness!(c04_leaf_remove_indices_fv_02, { remove_indices_case(FV_, 0b101); });
-leaf_op_harness!(c04_leaf_remove_indices_vf_1, { remove_indices_case(VF, 0b010); });
 leaf_op_harness!(c04_leaf_remove_indices_vf_01, { remove_indices_case(VF, 0b011); });
 
 // ---- branch pages -------------------------------------------------------------------------------
@@ -749,7 +763,7 @@ branch_harness!(c10_branch_build_v3, branch_build_case(None, 3));
 branch_harness!(c10_branch_build_v0, branch_build_case(None, 0));
 branch_harness!(c10_branch_build_f2, branch_build_case(Some(2), 2));
 
-// @harness props=C04 tier=quick timeout=1500 mem=16 stubbing=1 replay=native
+// @harness props=C04 tier=quick timeout=1600 mem=20 rss=12 stubbing=1 replay=native
 // @desc BranchAccessor::child_for_key routes an arbitrary query to the first child whose separator is >= the query (a query equal to the separator goes left) and returns that child's page number
 // @functions BranchAccessor::{child_for_key,key,child_page}, <&[u8] as Key>::compare
 // @bound 1 key / 2 children; fixed-width separator of 2 bytes, query 0..=3 bytes, all bytes arbitrary
